@@ -271,7 +271,10 @@ BecomeLeader(x, n) ==
                                      IF m \in peers THEN LastIdx(s) + 1 ELSE s.nextIdx[m]],
                       !.matchIdx = [m \in (DOMAIN s.matchIdx) \cup peers |->
                                      IF m \in peers THEN 0 ELSE s.matchIdx[m]],
-                      !.fresh = peers]
+                      !.fresh = peers,
+                      \* (a snapshot transfer begun in an earlier leadership is not continued: the receiver may have
+                      \* ignored pieces of it; it starts again from the first piece)
+                      !.trans = IF (DOMAIN s.trans) \ peers = {} THEN <<>> ELSE [m \in (DOMAIN s.trans) \ peers |-> s.trans[m]]]
       s2 == [s1 EXCEPT !.log = Append(@, Entry(LastIdx(s) + 1, s.term, NoopCmd, 1)),
                        !.noopIdx = LastIdx(s) + 1]
       x1 == WithS(x, s2)
@@ -632,9 +635,12 @@ MsgCtx(n, from, m, ord) ==
 MsgsTo(out, j) ==
   LET sel == SelectSeq(out, LAMBDA o : o.to = j) IN [k \in 1..Len(sel) |-> sel[k].msg]
 
+(* what n writes to a peer it has registered reaches that peer only over the connection n has registered: while the peer's *)
+(* hello on a NEW connection is still unread here, n's registration (if any) is the old, dead connection                   *)
+Rebinding(ch, n, j) == ch[j][n] # <<>> /\ Head(ch[j][n]).t = "hello"
 Flush(ch, al, n, out) ==
   [i \in Nodes |-> [j \in Nodes |->
-      IF i = n /\ {i, j} \in al THEN ch[i][j] \o MsgsTo(out, j) ELSE ch[i][j]]]
+      IF i = n /\ {i, j} \in al /\ ~Rebinding(ch, n, j) THEN ch[i][j] \o MsgsTo(out, j) ELSE ch[i][j]]]
 
 RECURSIVE ApplyEv(_, _)
 ApplyEv(c, ev) ==
